@@ -247,7 +247,7 @@ func (h *m3Handle) report(r *mon.Rand, producer, seq int) m3Call {
 	case "gauge":
 		bits := math.Float64bits(float64(uniq))
 		if extreme {
-			bits = []uint64{0, math.Float64bits(math.Inf(1)), math.Float64bits(-math.MaxFloat64), 0x7ff8000000000000 | uniq, 1}[r.Intn(5)]
+			bits = []uint64{0, math.Float64bits(math.Inf(1)), math.Float64bits(-math.MaxFloat64), 0x7ff8000000000000 | uniq, 1, 1 << 63 /* -0 */, math.Float64bits(math.Inf(-1)), 0xfff8000000000001}[r.Intn(8)]
 		}
 		c.Val = bits
 		h.g.ReportGauge(math.Float64frombits(bits))
